@@ -16,7 +16,7 @@ What is modelled (the code as it exists after the two `fix:` commits for F-C04-1
   MaskedIntRegs sharing address/length), FloatReg, StringReg, Register) with
   `address = <Address> + <pIndex Offset=..>selector</pIndex>` where the selector is another
   integer-valued node of the graph read through the same (cached) path, constant length,
-  `Cachable`, `AccessMode`, `pInvalidator*`, `pPort`; `Integer` with `pValue`; `Command`
+  `Cachable`, `AccessMode`, `pInvalidator*`, `pPort`; `Integer` with `pValue` and `pValueCopy*`; `Command`
   with `pValue` and constant `CommandValue`; `Port`.
 * a scripted device: byte image, static "no access" / "no write" address ranges, a list of
   write-attempt ordinals the device rejects, and an access log (every attempt, newest first).
@@ -79,7 +79,8 @@ structure Reg where
 inductive Node where
   | port
   | reg (r : Reg)
-  | integer (pValue : NodeId)
+  /-- `Integer` with `pValue` and `pValueCopy*` -/
+  | integer (pValue : NodeId) (copies : List NodeId)
   | command (pValue : NodeId) (cmdValue : Int)
   deriving Repr, DecidableEq, Inhabited
 
@@ -484,9 +485,16 @@ def evalInt : Nat → NodeId → M κ Int
         let (l, w) ← M.lift (fieldOf lsb msb r.len e)
         M.pure (applyMask v l w s)
       | _ => M.fail .invalidNode
-    | some (.integer pv) => evalInt fuel pv
+    | some (.integer pv _) => evalInt fuel pv
     | some _ => M.fail .invalidNode
     | none => M.panic
+
+/-- `for nid in p_value_copies { nid.set_value(value)?; }` (`ivalue.rs:493-505`) -/
+def forEachM (f : NodeId → M κ Unit) : List NodeId → M κ Unit
+  | [] => M.pure ()
+  | c :: cs => do
+    f c
+    forEachM f cs
 
 /-- `NodeId::set_value::<i64>` -/
 def setInt : Nat → NodeId → Int → M κ Unit
@@ -508,9 +516,10 @@ def setInt : Nat → NodeId → Int → M κ Unit
         let buf ← M.lift (bytesFromInt (toI64 nv) r.len e s)
         writeAndCache ops p g (evalInt ops p g fuel) n r buf
       | _ => M.fail .notWritable
-    | some (.integer pv) => do
+    | some (.integer pv cs) => do
       invBy ops n
       setInt fuel pv v
+      forEachM (fun c => setInt fuel c v) cs
     | some _ => M.fail .notWritable
     | none => M.panic
 
@@ -523,7 +532,7 @@ def readable : Nat → NodeId → R Bool
       match r.kind with
       | .int _ _ | .masked _ _ _ _ => .ok (r.acc ≠ .wo)
       | _ => .ok false
-    | some (.integer pv) => readable fuel pv
+    | some (.integer pv _) => readable fuel pv
     | some _ => .ok false
     | none => .panic
 
@@ -543,6 +552,8 @@ inductive Op where
   | portRead (n : NodeId) (a : Int) (l : Nat)
   | portWrite (n : NodeId) (a : Int) (data : Bytes)
   | clearCache
+  /-- `IRegister::address` (evaluates the selector through the cached path) -/
+  | address (n : NodeId)
   deriving Repr, DecidableEq, Inhabited
 
 def opValue (fuel : Nat) (n : NodeId) : M κ Val :=
@@ -559,7 +570,7 @@ def opValue (fuel : Nat) (n : NodeId) : M κ Val :=
       let bs ← withCacheOrRead ops p g (evalInt ops p g fuel) n r
       M.pure (.str (strFromSlice bs))
     | .raw => M.fail .invalidNode
-  | some (.integer _) => do
+  | some (.integer _ _) => do
     let v ← evalInt ops p g fuel n
     M.pure (.int v)
   | _ => M.fail .invalidNode
@@ -582,7 +593,7 @@ def opSetValue (fuel : Nat) (n : NodeId) (v : Val) : M κ Val :=
       writeAndCache ops p g (evalInt ops p g fuel) n r buf
       M.pure .unit
     | _, _ => M.fail .invalidNode
-  | some (.integer _) =>
+  | some (.integer _ _) =>
     match v with
     | .int i => do
       setInt ops p g fuel n i
@@ -628,6 +639,14 @@ def opIsDone (fuel : Nat) (n : NodeId) : M κ Val :=
     else M.pure (.bool true)
   | _ => M.fail .invalidNode
 
+/-- `IRegister::address` -/
+def opAddress (fuel : Nat) (n : NodeId) : M κ Val :=
+  match g[n]? with
+  | some (.reg r) => do
+    let a ← regAddr p (evalInt ops p g fuel) r
+    M.pure (.int a)
+  | _ => M.fail .invalidNode
+
 def evalOp (fuel : Nat) : Op → M κ Val
   | .value n => opValue ops p g fuel n
   | .setValue n v => opSetValue ops p g fuel n v
@@ -644,6 +663,7 @@ def evalOp (fuel : Nat) : Op → M κ Val
   | .clearCache => do
     clearCache ops
     M.pure .unit
+  | .address n => opAddress ops p g fuel n
 
 /-- fuel that suffices for every acyclic description -/
 def fuelOf (g : Graph) : Nat := g.length + 1
